@@ -86,6 +86,9 @@ def instances(tier):
     out.append({"name": "trad_geometric_mean_n16_descending_fcs", "func": "run_traditional", "kwargs": {"method": "geometric_mean", "nfft": 16, "nrec": 1, "reverse_fcs": True}})
     out.append({"name": "lemmas", "func": "run_lemmas", "kwargs": {}})
     out.append({"name": "corollaries", "func": "run_corollaries", "kwargs": {}})
+    # the curve is the ratio for the recordings AS THEY ARE: process, change in place through a public method, process again
+    for m, op in (("geometric_mean", "detrend"), ("single_azimuth", "window"), ("azimuthal", "detrend")):
+        out.append({"name": f"process_{op}_process_{m}", "func": "run_process_change_process", "kwargs": {"method": m, "op": op}})
     return out
 
 
@@ -103,6 +106,11 @@ def process(P, recs, st):
 
 def ops_for(nfft):
     return [op for op in OPS if op in CFG[nfft][1]]
+
+
+def run_process_change_process(rep, tier, method, op):
+    from harness import C04          # (C04 imports this module: imported lazily)
+    return C04.run_process_orient_process(rep, tier, method, op=op)
 
 
 def witness_fn(kind, recs_samples, extra):
@@ -523,6 +531,9 @@ def _run_library(spec):
 
 
 def replay(spec):
+    if spec.get("what") == "process-orient-process":
+        from harness import C04
+        return C04.replay(spec)
     if spec["kind"] == "lemma":
         return {"reproduced": False, "detail": "stage lemma (no concrete pipeline input)"}
     import hvsrpy
